@@ -387,8 +387,8 @@ def probe_job(ck, prog, natbin, mask, quick):
     native.close()
 
 
-def main():
-    ck = Check("C15")
+def prepare(ck):
+    """configure `ck` and return the list of jobs of this property's exploration"""
     ck.crate = "hconv"
     quick = ck.tier == "quick"
     if quick:
@@ -406,7 +406,12 @@ def main():
     natbin = build.build_native("hconv")
     for m in masks:
         ck.programs.add("hconv::P%d" % m)
-    ck.run_jobs([(lambda sub, m=m: probe_job(sub, prog, natbin, m, quick)) for m in masks])
+    return [(lambda sub, m=m: probe_job(sub, prog, natbin, m, quick)) for m in masks]
+
+
+def main():
+    ck = Check("C15")
+    ck.run_jobs(prepare(ck))
     ck.require_reached(["hit:" + h for h in HOOKS] + ["err:format", "err:type", "err:conv", "err:syn"])
     ck.finish()
 
